@@ -110,6 +110,17 @@ func (interp *Interpreter) gta(root *node, rpath, importPath, pkgName string) ([
 			return false
 
 		case defineXStmt:
+			if src := n.lastChild(); src.kind == callExpr {
+				if typ, err2 := nodeType(interp, sc, src.child[0]); err2 != nil || !typ.isComplete() {
+					// The function type is not known yet, come back when it is.
+					if err2 == nil {
+						err2 = n.cfgErrorf("undefined: %s", src.child[0].name())
+					}
+					n.meta = err2
+					revisit = append(revisit, n)
+					return false
+				}
+			}
 			err = compDefineX(sc, n)
 
 		case valueSpec:
@@ -414,7 +425,7 @@ func (interp *Interpreter) gtaRetry(nodes []*node, importPath, pkgName string) e
 			if err := definedType(n.typ); err != nil {
 				return err
 			}
-		case defineStmt, funcDecl:
+		case defineStmt, defineXStmt, funcDecl:
 			if err, ok := n.meta.(error); ok {
 				return err
 			}
